@@ -210,6 +210,39 @@ fn requests<'a>(rec: &'a RunRecord, peer: u32, lane: &str) -> Vec<&'a Sent> {
         .collect()
 }
 
+/// The agent implementation never got past its start-up (it handled nothing) while some remote's
+/// attachment never completed: the start-up deadlock between the attachment task, the read task
+/// (blocked feeding a lane whose input buffer is full) and the agent waiting for its command channel.
+fn startup_deadlock(rec: &RunRecord) -> bool {
+    let only_startup = rec
+        .truth
+        .first()
+        .map(|t| t.iter().all(|(_, e)| matches!(e, TruthEv::Restored { .. } | TruthEv::Start)))
+        .unwrap_or(true);
+    let unattached = rec.scenario.peers.iter().any(|p| !rec.hist.attached.iter().any(|(_, id)| *id == p.id));
+    only_startup && unattached && rec.agent_ends.first().map(|e| e.is_none()).unwrap_or(true)
+}
+
+/// True if the peer's script ever syncs with the lane while it has not asked to link first
+/// (a static property of the script: "linking implicitly by syncing").
+fn syncs_without_link(rec: &RunRecord, peer: u32, lane: &str) -> bool {
+    let Some(p) = rec.scenario.peers.iter().find(|p| p.id == peer) else { return false };
+    let mut linked = false;
+    for op in &p.ops {
+        match op {
+            Op::Link { lane: l } if l == lane => linked = true,
+            Op::Unlink { lane: l } if l == lane => linked = false,
+            Op::Sync { lane: l } if l == lane => {
+                if !linked {
+                    return true;
+                }
+            }
+            _ => {}
+        }
+    }
+    false
+}
+
 pub fn check(rec: &RunRecord) -> Vec<Violation> {
     let mut out = vec![];
     let sc = &rec.scenario;
@@ -241,6 +274,11 @@ pub fn check(rec: &RunRecord) -> Vec<Violation> {
         let info = peer_info(rec, *peer);
         let reqs = requests(rec, *peer, lane);
         let known = KNOWN_LANES.contains(&lane.as_str());
+        // A peer that itself asked to unlink races with its own earlier requests (an unlink landing in
+        // the middle of a sync response is followed by an implicit re-link for the rest of it); from
+        // its first unlink request on, only grammar / integrity / ordering are checked for that lane.
+        let first_unlink: Option<u64> = reqs.iter().filter(|s| matches!(s.op, Op::Unlink { .. })).map(|s| s.start).min();
+        let link_kind = if syncs_without_link(rec, *peer, lane) { "implicit_link" } else { "explicit_link" };
         // ---------------- C04 grammar
         if !known {
             for f in frames {
@@ -364,7 +402,7 @@ pub fn check(rec: &RunRecord) -> Vec<Violation> {
             }
             // Final value at quiescence.
             if let (Some(qs), true) = (q, clean_end) {
-                if info.closed_read.is_none() && info.closed_write.is_none() && !info.write_failed {
+                if first_unlink.is_none() && info.closed_read.is_none() && info.closed_write.is_none() && !info.write_failed {
                     if let Some(s) = sess.last() {
                         let open_at_q = s.closed.map(|c| c.step > qs).unwrap_or(true) && s.linked_step <= qs;
                         if open_at_q {
@@ -410,7 +448,7 @@ pub fn check(rec: &RunRecord) -> Vec<Violation> {
                         last_val = std::str::from_utf8(b).ok().and_then(|t| t.parse::<i32>().ok()).or(last_val);
                     }
                     FrameKind::Synced => {
-                        if let Some(req) = sync_reqs.get(synced_no) {
+                        if let Some(req) = sync_reqs.get(synced_no).filter(|_| first_unlink.map(|u| u > f.step).unwrap_or(true)) {
                             let from = req.start;
                             let to = f.step;
                             let mut held: BTreeSet<i32> = BTreeSet::new();
@@ -448,14 +486,16 @@ pub fn check(rec: &RunRecord) -> Vec<Violation> {
                     vindex.entry(*v).or_insert((i, *st, k.clone()));
                 }
             }
-            let clears: Vec<u64> = ops.iter().filter(|(_, e)| matches!(e, MapEv::Clear)).map(|(s, _)| *s).collect();
+            // Positions (in the lane's own order of operations) of the clears; several operations of
+            // one handler share a step number, so the order is taken from positions, not steps.
+            let clears: Vec<i64> = ops.iter().enumerate().filter(|(_, (_, e))| matches!(e, MapEv::Clear)).map(|(i, _)| i as i64).collect();
             let sync_reqs: Vec<&&Sent> = reqs.iter().filter(|s| matches!(s.op, Op::Sync { .. })).collect();
             let mut synced_no = 0usize;
             let mut replica: BTreeMap<String, i32> = BTreeMap::new();
             let mut in_link = false;
             let mut last_idx_per_key: HashMap<String, usize> = HashMap::new();
-            let mut max_truth_step_seen = 0u64;
-            let mut clear_floor = 0u64;
+            let mut max_truth_step_seen = -1i64;
+            let mut clear_floor = -1i64;
             let mut session_synced = false;
             let mut session_linked_step = 0u64;
             for f in frames.iter() {
@@ -488,10 +528,10 @@ pub fn check(rec: &RunRecord) -> Vec<Violation> {
                                         }
                                         let e = last_idx_per_key.entry(k.clone()).or_insert(*i);
                                         *e = (*e).max(*i);
-                                        if *st < clear_floor {
-                                            out.push(Violation::new("C02", "C02.clear", "", format!("peer {peer} lane {lane}: update {k}->{v} (lane step {st}) received after a clear that happened at lane step {clear_floor}")));
+                                        if (*i as i64) < clear_floor {
+                                            out.push(Violation::new("C02", "C02.clear", "", format!("peer {peer} lane {lane}: update {k}->{v} (lane operation #{i}) received after a clear that was lane operation #{clear_floor}")));
                                         }
-                                        max_truth_step_seen = max_truth_step_seen.max(*st);
+                                        max_truth_step_seen = max_truth_step_seen.max(*i as i64);
                                     }
                                     _ => {
                                         // The initial (restored) map may be sent by a sync.
@@ -519,7 +559,7 @@ pub fn check(rec: &RunRecord) -> Vec<Violation> {
                     },
                     FrameKind::Synced => {
                         session_synced = true;
-                        if let Some(req) = sync_reqs.get(synced_no) {
+                        if let Some(req) = sync_reqs.get(synced_no).filter(|_| first_unlink.map(|u| u > f.step).unwrap_or(true)) {
                             let from = req.start;
                             let to = f.step;
                             let mut keys: BTreeSet<String> = replica.keys().cloned().collect();
@@ -533,7 +573,8 @@ pub fn check(rec: &RunRecord) -> Vec<Violation> {
                                 let states = key_states(&init, &ops, &k, from, to);
                                 let have = replica.get(&k).copied();
                                 if !states.contains(&have) {
-                                    let kind = if have.is_none() { "key_missing" } else { "key_stale" };
+                                    let kind = format!("{}:{link_kind}", if have.is_none() { "key_missing" } else { "key_stale" });
+                                    let kind = kind.as_str();
                                     out.push(Violation::new("C03", "C03.snapshot", kind, format!(
                                         "peer {peer} lane {lane}: at synced (step {to}) key {k} is {:?} in the replica, but the lane held {:?} between the sync request (step {from}) and then",
                                         have, states)));
@@ -546,7 +587,7 @@ pub fn check(rec: &RunRecord) -> Vec<Violation> {
             }
             // Replica convergence at quiescence.
             if let (Some(qs), true) = (q, clean_end) {
-                if in_link_at(frames, qs) && info.closed_read.is_none() && info.closed_write.is_none() && !info.write_failed {
+                if in_link_at(frames, qs) && first_unlink.is_none() && info.closed_read.is_none() && info.closed_write.is_none() && !info.write_failed {
                     let first_mutation = ops.first().map(|(s, _)| *s);
                     let linked_before_all = init.is_empty() && first_mutation.map(|m| m > session_linked_step).unwrap_or(true);
                     if session_synced || linked_before_all {
@@ -574,12 +615,13 @@ pub fn check(rec: &RunRecord) -> Vec<Violation> {
                         if rep != lane_map {
                             let missing: Vec<_> = lane_map.iter().filter(|(k, v)| rep.get(*k) != Some(*v)).map(|(k, v)| format!("{k}->{v}")).collect();
                             let extra: Vec<_> = rep.iter().filter(|(k, _)| !lane_map.contains_key(*k)).map(|(k, v)| format!("{k}->{v}")).collect();
-                            let kind = if session_synced { "after_sync" } else { "linked_from_start" };
+                            let kind = if session_synced { format!("after_sync:{link_kind}") } else { "linked_from_start".to_string() };
+                            let kind = kind.as_str();
                             out.push(Violation::new("C02", "C02.replica", kind, format!(
                                 "peer {peer} lane {lane}: replica differs from the lane at quiescence; lane has {:?}; wrong/missing in replica: {:?}; extra in replica: {:?}",
                                 lane_map, missing, extra)));
                             if session_synced {
-                                out.push(Violation::new("C03", "C03.tail", "", format!(
+                                out.push(Violation::new("C03", "C03.tail", link_kind, format!(
                                     "peer {peer} lane {lane}: synced replica did not converge; wrong/missing {:?}, extra {:?}", missing, extra)));
                             }
                         }
@@ -619,7 +661,9 @@ pub fn check(rec: &RunRecord) -> Vec<Violation> {
                 }
             }
             if let (Some(qs), true) = (q, clean_end) {
-                if info.closed_read.is_none() && info.closed_write.is_none() && !info.write_failed {
+                // A remote that unlinks forfeits what was still queued for it (the unlinked
+                // notification deliberately discards the lane's pending data).
+                if first_unlink.is_none() && info.closed_read.is_none() && info.closed_write.is_none() && !info.write_failed {
                     // Windows in which the peer was definitely linked: from reading `linked` until it
                     // started writing an unlink (or read an unlinked).
                     let unlink_starts: Vec<u64> = reqs.iter().filter(|s| matches!(s.op, Op::Unlink { .. })).map(|s| s.start).collect();
@@ -643,7 +687,8 @@ pub fn check(rec: &RunRecord) -> Vec<Violation> {
     }
 
     // ---------------- C14 command lane: exactly once, in order per sender.
-    if let (Some(qs), true) = (q, clean_end) {
+    // (A start-up deadlock is reported once, under C04.live, not as lost commands.)
+    if let (Some(qs), true, false) = (q, clean_end, startup_deadlock(rec)) {
         let handled: Vec<i32> = rec.truth.first().map(|t| t.iter().filter(|(s, _)| *s <= qs).filter_map(|(_, e)| match e {
             TruthEv::Command { value } => Some(*value),
             _ => None,
@@ -786,7 +831,8 @@ pub fn check(rec: &RunRecord) -> Vec<Violation> {
             }
             _ => {
                 if rec.panics.is_empty() {
-                    out.push(Violation::new("C04", "C04.live", "agent_never_stopped", format!("the agent did not stop after the stop trigger / timeout; live nodes {:?}", rec.live_at_end)));
+                    let kind = if startup_deadlock(rec) { "startup_deadlock" } else { "agent_never_stopped" };
+                    out.push(Violation::new("C04", "C04.live", kind, format!("the agent did not stop after the stop trigger / timeout; live nodes {:?}", rec.live_at_end)));
                 }
             }
         }
